@@ -128,14 +128,8 @@ func runPubWorkload(c *run.Ctx, pp pubParams) (*Episode, *pubAnalysis, []*sim.Pu
 	ep.F.Heal(ep.W)
 	ep.W.Broker.ReleaseHeld()
 	pubs := ep.D.PubsSnapshot()
-	status, report := ep.awaitOrDiagnose("all exchanges closed after faults stopped", func() bool {
-		for _, p := range pubs {
-			if p.Accepted() && p.ClosedSeq == 0 {
-				return false
-			}
-		}
-		return true
-	})
+	_ = pubs
+	status, report := ep.awaitOrDiagnose("all exchanges closed after faults stopped", ep.D.AllClosed)
 	final := true
 	switch status {
 	case "wedged":
@@ -184,7 +178,7 @@ func reportPubs(c *run.Ctx, ep *Episode, a *pubAnalysis, all []*sim.Pub, props .
 			continue
 		}
 		seen[v.sig] = true
-		c.Violate(v.sig, v.msg, map[string]any{"faults": ep.F.Fired, "trace_tail": ep.W.TraceTail(80), "config": fmt.Sprintf("AtLeastOnceMax=%d ExactlyOnceMax=%d", ep.Cfg.AtLeastOnceMax, ep.Cfg.ExactlyOnceMax)})
+		c.Violate(v.sig, v.msg, map[string]any{"faults": ep.F.Fired, "trace_tail": ep.W.TraceTail(traceN(c)), "config": fmt.Sprintf("AtLeastOnceMax=%d ExactlyOnceMax=%d", ep.Cfg.AtLeastOnceMax, ep.Cfg.ExactlyOnceMax)})
 	}
 	for _, o := range ep.W.Online {
 		if want["C13"] || want["C06"] {
@@ -230,7 +224,7 @@ func init() {
 			if tier == "thorough" {
 				return 6000
 			}
-			return 400
+			return 1500
 		},
 		ChunkSize: 25,
 		Rule:      "each case is a PRNG-drawn episode: 1-24 persisted publishes (both levels, retained or not, payload 0 B-140 kB) from 1-3 goroutines against the scripted connection, reference broker and instrumented Persistence, with a budget of 0-8 connection-fatal faults (write error at a byte offset, zero-progress expiry, blackholed writes, read EOF/reset/expiry, failed dial, refused or missing CONNACK, lost acknowledgement, transient Load/Save/Delete error) plus harmless ones (short writes with expiry, fragmented reads, stalls with progress, withheld acknowledgements); then faults stop and the episode must reach idle. Non-trivial: at least one connection loss while a message was unacknowledged and a resend observed; distinct by the multiset of fault kinds fired and the numbers of connections and messages.",
@@ -267,4 +261,11 @@ func init() {
 			c.Sample(map[string]any{"publishes": len(all), "connections": len(ep.W.Conns), "faults_fired": ep.F.Fired, "events": len(ep.W.Trace)})
 		},
 	})
+}
+
+func traceN(c *run.Ctx) int {
+	if c.Verbose {
+		return 1 << 20
+	}
+	return 600
 }
